@@ -7,7 +7,7 @@
 //! event.
 
 use crate::core::{self, fail, probe, probe_max, probe_n, Check, Mask, Violation};
-use crate::oracle::{self, cmp_def, cmp_field, cmp_fields, cmp_param, cmp_type, cmp_variant};
+use crate::oracle::{self, cmp_def, cmp_field, cmp_fields, cmp_param, cmp_type, cmp_variant, Cmp};
 use crate::pool::s;
 use crate::ptype::{PReg, PType};
 use crate::reggen::{ChainStep, Delivery, ItemSpec, RegScenario, Req};
@@ -87,6 +87,8 @@ impl IntoPortable for Pallet {
 struct Applied {
     pairs: Vec<(MetaType, u32)>,
     mismatch: Option<oracle::Mismatch>,
+    /// positions could not be aligned: `pairs` is incomplete
+    structural: bool,
     /// the request's own references, aligned with `pairs` when that is known
     refs: Option<Vec<TyRef>>,
 }
@@ -94,8 +96,8 @@ struct Applied {
 /// Apply a request to a registry through the public API only.  The evaluation
 /// counters are armed exactly while library code runs.
 fn apply(reg: &mut Registry, req: &Req) -> Applied {
-    let mut pairs = Vec::new();
-    let mut mismatch = None;
+    let mut c = Cmp::default();
+    let mut mismatch: Option<oracle::Mismatch> = None;
     let mut refs = Some(req.refs());
     let lib = |f: &mut dyn FnMut()| {
         let was = universe::arm(true);
@@ -107,7 +109,7 @@ fn apply(reg: &mut Registry, req: &Req) -> Applied {
             let m = meta(*t);
             let mut id = 0;
             lib(&mut || id = reg.register_type(&m).id);
-            pairs.push((m, id));
+            c.pairs.push((m, id));
         }
         Req::RegisterMany(ts) => {
             let ms: Vec<MetaType> = ts.iter().map(|t| meta(*t)).collect();
@@ -115,27 +117,28 @@ fn apply(reg: &mut Registry, req: &Req) -> Applied {
             lib(&mut || ids = reg.register_types(ms.clone()));
             if ids.len() != ms.len() {
                 mismatch = Some(("register_types.len", format!("{} vs {}", ms.len(), ids.len())));
+                c.structural = true;
             }
-            pairs.extend(ms.into_iter().zip(ids.into_iter().map(|x| x.id)));
+            c.pairs.extend(ms.into_iter().zip(ids.into_iter().map(|x| x.id)));
         }
         Req::Item(item) => match item {
             ItemSpec::Field(f) => {
                 let built = universe::build_field_pub(f);
                 let mut out = None;
                 lib(&mut || out = Some(universe::build_field_pub(f).into_portable(reg)));
-                mismatch = cmp_field(&built, &out.unwrap(), &mut pairs).err();
+                cmp_field(&built, &out.unwrap(), &mut c);
             }
             ItemSpec::Variant(v) => {
                 let built = universe::build_variant(v);
                 let mut out = None;
                 lib(&mut || out = Some(universe::build_variant(v).into_portable(reg)));
-                mismatch = cmp_variant(&built, &out.unwrap(), &mut pairs).err();
+                cmp_variant(&built, &out.unwrap(), &mut c);
             }
             ItemSpec::Param(n, t) => {
                 let built = universe::build_param(&(*n, *t));
                 let mut out = None;
                 lib(&mut || out = Some(universe::build_param(&(*n, *t)).into_portable(reg)));
-                mismatch = cmp_param(&built, &out.unwrap(), &mut pairs).err();
+                cmp_param(&built, &out.unwrap(), &mut c);
             }
             ItemSpec::TypeOf(t) => {
                 let m = meta(*t);
@@ -144,14 +147,14 @@ fn apply(reg: &mut Registry, req: &Req) -> Applied {
                 let mut out = None;
                 let mut slot = Some(again);
                 lib(&mut || out = Some(slot.take().unwrap().into_portable(reg)));
-                mismatch = cmp_type(&built, &out.unwrap(), &mut pairs).err();
+                cmp_type(&built, &out.unwrap(), &mut c);
                 refs = None;
             }
             ItemSpec::Def(d) => {
                 let built = universe::build_def(d);
                 let mut out = None;
                 lib(&mut || out = Some(universe::build_def(d).into_portable(reg)));
-                mismatch = cmp_def(&built, &out.unwrap(), &mut pairs).err();
+                cmp_def(&built, &out.unwrap(), &mut c);
             }
             ItemSpec::Fields(fs) => {
                 let built: Vec<Field> = fs.iter().map(universe::build_field_pub).collect();
@@ -159,7 +162,7 @@ fn apply(reg: &mut Registry, req: &Req) -> Applied {
                 lib(&mut || {
                     out = reg.map_into_portable(fs.iter().map(universe::build_field_pub))
                 });
-                mismatch = cmp_fields(&built, &out, &mut pairs).err();
+                cmp_fields(&built, &out, &mut c);
             }
             ItemSpec::Pallet { name, calls, event, storage, constants } => {
                 let mk = || Pallet {
@@ -178,33 +181,38 @@ fn apply(reg: &mut Registry, req: &Req) -> Applied {
                     mm = Some(("pallet.name", format!("{:?} vs {:?}", built.name, out.name)));
                 }
                 match (built.calls, out.calls) {
-                    (Some(a), Some(b)) => pairs.push((a, b)),
+                    (Some(a), Some(b)) => c.pairs.push((a, b)),
                     (None, None) => {}
-                    _ => mm = Some(("pallet.calls", String::new())),
+                    _ => {
+                        mm = Some(("pallet.calls", String::new()));
+                        c.structural = true;
+                    }
                 }
                 match (built.event, out.event) {
-                    (Some(a), Some(b)) => pairs.push((a, b)),
+                    (Some(a), Some(b)) => c.pairs.push((a, b)),
                     (None, None) => {}
-                    _ => mm = Some(("pallet.event", String::new())),
+                    _ => {
+                        mm = Some(("pallet.event", String::new()));
+                        c.structural = true;
+                    }
                 }
-                if let Err(e) = cmp_fields(&built.storage, &out.storage, &mut pairs) {
-                    mm = Some(e);
-                }
+                cmp_fields(&built.storage, &out.storage, &mut c);
                 if built.constants.len() != out.constants.len() {
                     mm = Some(("pallet.constants.len", String::new()));
-                } else {
-                    for (a, b) in built.constants.iter().zip(&out.constants) {
-                        if a.0 != b.0.as_str() {
-                            mm = Some(("pallet.constant.name", format!("{:?} vs {:?}", a.0, b.0)));
-                        }
-                        pairs.push((a.1, b.1));
+                    c.structural = true;
+                }
+                for (a, b) in built.constants.iter().zip(&out.constants) {
+                    if a.0 != b.0.as_str() {
+                        mm = Some(("pallet.constant.name", format!("{:?} vs {:?}", a.0, b.0)));
                     }
+                    c.pairs.push((a.1, b.1));
                 }
                 mismatch = mm;
             }
         },
     }
-    Applied { pairs, mismatch, refs }
+    let mismatch = mismatch.or(c.first.clone());
+    Applied { pairs: c.pairs, mismatch, structural: c.structural, refs }
 }
 
 /// One registry with its monitors.
@@ -221,6 +229,9 @@ struct Site {
     /// number of entries after each delivery
     sizes: Vec<usize>,
     flags: u32,
+    /// the compile-time walk could not be completed (positions not aligned,
+    /// or an id that does not resolve): the reachable-identity count is unknown
+    closure_incomplete: bool,
 }
 
 impl Site {
@@ -238,6 +249,7 @@ impl Site {
             held: Vec::new(),
             sizes: Vec::new(),
             flags: 0,
+            closure_incomplete: false,
         }
     }
 
@@ -285,6 +297,9 @@ impl Site {
             fail(mask, "C02", &format!("item.{}", clause), || {
                 format!("{} event {}: {}", self.name, e, detail)
             })?;
+        }
+        if applied.structural {
+            self.closure_incomplete = true;
         }
 
         // --- observe Registry::types() -----------------------------------
@@ -441,20 +456,27 @@ impl Site {
                 };
                 fail(mask, "C02", "id_unresolvable", f)?;
                 fail(mask, "C01", "closed.handed_out_id", f)?;
+                self.closure_incomplete = true;
                 continue;
             }
             let info = m.type_info();
-            let mut children = Vec::new();
-            if let Err((clause, detail)) = cmp_type(&info, &self.snap[id as usize], &mut children) {
+            let mut c = Cmp::default();
+            cmp_type(&info, &self.snap[id as usize], &mut c);
+            if let Err((clause, detail)) = c.result() {
                 fail(mask, "C02", clause, || {
                     format!("{} event {}: id {}: {}", self.name, e, id, detail)
                 })?;
             }
-            queue.extend(children);
+            if c.structural {
+                self.closure_incomplete = true;
+            }
+            queue.extend(c.pairs);
         }
 
         // --- C05.2: exactly one entry per reachable identity ----------------
-        if self.snap.len() != self.tid_to_id.len() {
+        if self.closure_incomplete {
+            probe("suppressed.entry_count_unknown_after_structural_mismatch");
+        } else if self.snap.len() != self.tid_to_id.len() {
             fail(mask, "C05", "entry_count", || {
                 format!(
                     "{} event {}: {} entries for {} distinct identities reachable from what was registered",
@@ -526,13 +548,14 @@ impl Site {
                     })?;
                 }
                 Some(ty) => {
-                    let mut children = Vec::new();
-                    if let Err((clause, detail)) = cmp_type(&m.type_info(), ty, &mut children) {
+                    let mut c = Cmp::default();
+                    cmp_type(&m.type_info(), ty, &mut c);
+                    if let Err((clause, detail)) = c.result() {
                         fail(mask, "C02", &format!("final.{}", clause), || {
                             format!("{}: id {}: {}", name, id, detail)
                         })?;
                     }
-                    queue.extend(children);
+                    queue.extend(c.pairs);
                 }
             }
         }
